@@ -662,9 +662,18 @@ class Arbiter(object):
             sockets = [x.fileno() for x in self.sockets.values()]
             rlist, wlist, xlist = select.select(sockets, [], [], 0)
             if rlist:
+                # a connection is waiting: start the on_demand watchers, and
+                # only them (a watcher that was stopped on request stays
+                # stopped), and wait for them while the command slot is held
+                def on_demand_watchers():
+                    return [w for w in self.iter_watchers() if w.on_demand]
+
                 self.socket_event = True
-                self._start_watchers()
-                self.socket_event = False
+                try:
+                    yield self._start_watchers(
+                        watcher_iter_func=on_demand_watchers)
+                finally:
+                    self.socket_event = False
 
     @synchronized("arbiter_reload")
     @gen.coroutine
